@@ -41,10 +41,18 @@ def setup(ctx, index, ordinal):
     o = PyObj(ci, {'$args': tuple(args), '$kwargs': dict(kwargs)}, name='unpickler')
     made.append(o)
     return o
-  unpickler_base = ModelClass('pickle.Unpickler', methods={
-    'load': lambda ip, selfobj: log.add('Unpickler.load', (selfobj,)) or 'LOADED'})
+  def load(ip, selfobj):
+    log.add('Unpickler.load', (selfobj,))
+    # load() may raise any exception (A-PICKLE)
+    if ip.ctx.choose(2, 'load raises') == 1:
+      from pyvc.values import ExcVal, SymExc
+      raise PyRaise(ExcVal(None, (), sym=SymExc('load')))
+    return 'LOADED'
+  unpickler_base = ModelClass('pickle.Unpickler', methods={'load': load})
   pickle_ns = Namespace('pickle', {'UnpicklingError': ExcClass('pickle.UnpicklingError'),
-                                   'Unpickler': unpickler_base})
+                                   'Unpickler': unpickler_base,
+                                   'loads': External('pickle.loads(unrestricted)', log, ret=lambda ip, a, k: 'UNSAFE'),
+                                   'load': External('pickle.load(unrestricted)', log, ret=lambda ip, a, k: 'UNSAFE')})
   b = {U: {'pickle': pickle_ns, 'sys': Namespace('sys', {'modules': Modules(log)}),
            'StringIO': Builtin('StringIO', lambda ip, a, k: ('StringIO', a[0]))}}
   ip = Interp(ctx, index, bindings=b)
@@ -96,11 +104,21 @@ def u_loads(ctx, index):
   ip, log, made, pickle_ns = setup(ctx, index, 1)
   ci = index.cls(U + ':SafeUnpickler#1')
   data = ctx.fresh(Atom, 'pickle_string')
-  r = ip.call(ip.getattr(RepoClass(ci), 'loads'), [data])
+  raised = None
+  r = None
+  try:
+    r = ip.call(ip.getattr(RepoClass(ci), 'loads'), [data])
+  except PyRaise as e:
+    raised = e.exc
   index.mark_used(ci.methods['loads'])
   ctx.cover('loads/returns')
+  unsafe = [e for e in log.events if 'unrestricted' in e[0]]
+  ctx.check('C13/loads/never_falls_back_to_the_unrestricted_loader', z3.BoolVal(not unsafe))
+  if raised is not None:
+    ctx.check('C13/loads/failure_of_load_propagates_unchanged', z3.BoolVal(raised.sym is not None))
+    return
   loads = log.of('Unpickler.load')
-  ok = len(made) == 1 and len(loads) == 1 and loads[0][1][0] is made[0] and made[0].cls is ci
+  ok = len(made) >= 1 and len(loads) >= 1 and all(l[1][0] in made for l in loads) and all(m.cls is ci for m in made)
   ctx.check('C13/loads/load_runs_on_the_restricted_subclass', z3.BoolVal(ok))
   if ok:
     a = made[0].fields['$args']
@@ -148,6 +166,10 @@ def callsites(index):
         problems.append('line %d: self.unpickler = %s' % (n.lineno, ast.unparse(n.value)[:60]))
   if n_get != 2:
     problems.append('expected 2 get_unpickler call sites, found %d' % n_get)
+  ut = index.module('carbon.util')
+  for n in ast.walk(ut.tree):
+    if isinstance(n, ast.Call) and ast.unparse(n.func) in ('pickle.loads', 'pickle.load', 'cPickle.loads'):
+      problems.append('util.py line %d: %s (unrestricted loader)' % (n.lineno, ast.unparse(n.func)))
   for path in sorted(glob.glob(os.path.join(LIB, 'carbon', '*.py')) + glob.glob(os.path.join(LIB, 'carbon', 'aggregator', '*.py'))):
     base = os.path.basename(path)
     if base in ('util.py', 'protocols.py'):
